@@ -59,6 +59,8 @@ def parse_args(
         return callback
 
     def debug_callback(option, opt_str, value, parser):
+        global _fail_fast
+        _fail_fast = True
         logger.set_level("DEBUG")
 
     parser.add_option("--debug", action="callback",
@@ -337,6 +339,12 @@ def syntax(message=None, usage=None):
     raise SystemExit(1)
 
 
+# Whether process_actions re-raises the first per-file error instead of
+# collecting it.  Set by --debug only ("noisy and fail fast"); --verbose and
+# PYFLYBY_LOG_LEVEL=DEBUG are only noisy.
+_fail_fast = False
+
+
 class AbortActions(Exception):
     pass
 
@@ -423,7 +431,7 @@ def process_actions(filenames:List[str], actions, modify_function,
                     except TypeError:
                         # Exception takes more than one argument
                         pass
-                if logger.debug_enabled:
+                if _fail_fast:
                     raise
                 traceback.print_exception(type(e), e, tb)
             finally:
